@@ -186,24 +186,67 @@ fails the loop test -/
 theorem C07_loop_exit {σ : Type} (c : σ → Prop) (f : σ → σ) (s : σ) (hex : ∃ n : ℕ, ¬ c (f^[n] s)) :
     ¬ c (whileLoop c f s) ∧ ∃ n : ℕ, whileLoop c f s = f^[n] s ∧ ∀ m < n, c (f^[m] s) := conv_loop_exit c f s hex
 
-/-- `cart2geodetic` on an eccentric ellipsoid returns height and latitude of the loop's exit state, and
-that state passes the stop test (|B − B₀| ≤ the tolerance of the source) — provided the loop exits.
--- NOT PROVED (partial): that it exits for every point of the domain (|lat| ≤ 88°, −10 km ≤ h ≤ 1000 km)
--- — a contraction estimate `C07_iteration_contracts` — and how far the exit state is from the fixed
--- point; both are validated numerically by the harness (mpmath inverse, 1 cm / 1e-7°). -/
-theorem C07_cart2geodetic_at_exit_partial (x y z a e : ℝ) (he : e ≠ 0)
+/-- obligation emitted by the translator (`N`, `h` are first assigned inside the loop): the loop test holds in the
+start state `(·, ·, B₀ + 1, B₀)`, so the body always runs at least once (Python: no `UnboundLocalError`) -/
+theorem C07_loop_entered (x y z a e B0 : ℝ) : cart2geodetic_loop1_entered x y z a e (e ^ 2) (B0 + 1) B0 :=
+  conv_loop_entered x y z a e B0
+
+/-- the longitude returned by `cart2geodetic` is `arctan2(y, x)` in both branches, whatever the loop does … -/
+theorem C07_cart2geodetic_lon (x y z a e : ℝ) :
+    (cart2geodetic x y z a e).2.2 = Complex.arg ⟨x, y⟩ * (180 / Real.pi) := conv_cart2geodetic_lon x y z a e
+
+/-- … hence `cart2geodetic ∘ geodetic2cart` recovers the longitude exactly (spherical and eccentric models) -/
+theorem C07_geodetic_lon_recovery (h lat lon a e : ℝ) (ha : 0 < a) (he0 : 0 ≤ e) (he1 : e < 1)
+    (hlat : |lat| < 90) (hh : -(a * (1 - e ^ 2)) < h) (hlon : -180 < lon ∧ lon ≤ 180) :
+    let p := geodetic2cart h lat lon a e
+    (cart2geodetic p.1 p.2.1 p.2.2 a e).2.2 = lon := conv_geodetic_lon_recovery h lat lon a e ha he0 he1 hlat hh hlon
+
+/-- composite route: geodetic → geocentric → geodetic equals geodetic → cartesian → geodetic -/
+theorem C07_composite_roundtrip (h lat lon a e : ℝ)
+    (h0 : ¬ cart2geocentric_rejects (geodetic2cart h lat lon a e).1 (geodetic2cart h lat lon a e).2.1
+            (geodetic2cart h lat lon a e).2.2) :
+    let p := geodetic2cart h lat lon a e
+    let q := geodetic2geocentric h lat lon a e
+    geocentric2geodetic q.1 q.2.1 q.2.2 a e = cart2geodetic p.1 p.2.1 p.2.2 a e :=
+  conv_composite_roundtrip h lat lon a e h0
+
+/-- One pass of the loop body from ANY latitude `B` with cos B > 0 (every iterate has that): the returned pair
+(height `s.2.1`, latitude `s.2.2.1 = B`) reproduces x and y exactly, and z up to the explicit residual
+`(N(1−e²)+h) · sin(B₀' − B) / cos B₀'`, which vanishes at a fixed point and is bounded by the last step `|B − B₀'|`. -/
+theorem C07_step_residual (x y z a e N h Bp B : ℝ) (hxy : x ≠ 0 ∨ y ≠ 0) (hB : 0 < Real.cos B)
+    (hden : 1 - e ^ 2 * (cart2geodetic_loop1_body x y z a e (e ^ 2) (N, h, Bp, B)).1
+              / ((cart2geodetic_loop1_body x y z a e (e ^ 2) (N, h, Bp, B)).1
+                 + (cart2geodetic_loop1_body x y z a e (e ^ 2) (N, h, Bp, B)).2.1) ≠ 0) :
+    let s := cart2geodetic_loop1_body x y z a e (e ^ 2) (N, h, Bp, B)
+    let p := geodetic2cart s.2.1 (s.2.2.1 * (180 / Real.pi)) (Complex.arg ⟨x, y⟩ * (180 / Real.pi)) a e
+    p = (x, y, z - (s.1 * (1 - e ^ 2) + s.2.1) * Real.sin (s.2.2.2 - B) / Real.cos s.2.2.2)
+    ∧ |z - p.2.2| * Real.cos s.2.2.2 ≤ |s.1 * (1 - e ^ 2) + s.2.1| * |s.2.2.1 - s.2.2.2| :=
+  ⟨conv_step_inverse x y z a e N h Bp B hxy hB hden, (conv_step_residual_bound x y z a e N h Bp B hxy hB hden).2.2⟩
+
+/-- The whole function on an eccentric ellipsoid, PROVIDED the loop exits: it returns height and latitude of the
+exit state `s`, which passes the stop test (|B − B₀| ≤ the tolerance of the source); feeding the result back into
+`geodetic2cart` reproduces x and y exactly and z up to `|N(1−e²)+h| · |B − B₀| / cos B₀`.
+(`hden`: the divisor of the last pass is not zero, see `C07_geodetic_fixed_point`.)
+-- NOT PROVED (partial): that the loop exits for every point of the domain (|lat| ≤ 88°, −10 km ≤ h ≤ 1000 km) — a
+-- contraction estimate `C07_iteration_contracts` — and the resulting bound on the LATITUDE/HEIGHT error (the theorem
+-- bounds the residual in z, i.e. the defect of the defining equations, not the distance to the true (h, lat));
+-- both are validated numerically by the harness (mpmath inverse, 1 cm / 1e-7°). -/
+theorem C07_cart2geodetic_at_exit_partial (x y z a e : ℝ) (he : e ≠ 0) (hxy : x ≠ 0 ∨ y ≠ 0)
     (hex : ∃ n : ℕ, ¬ cart2geodetic_loop1_cond_any x y z a e (e ^ 2)
       ((cart2geodetic_loop1_body x y z a e (e ^ 2))^[n]
-        (0, 0, Complex.arg ⟨Real.sqrt (x * x + y * y), z⟩ + 1, Complex.arg ⟨Real.sqrt (x * x + y * y), z⟩))) :
+        (0, 0, Complex.arg ⟨Real.sqrt (x * x + y * y), z⟩ + 1, Complex.arg ⟨Real.sqrt (x * x + y * y), z⟩)))
+    (hden : let s := whileLoop (cart2geodetic_loop1_cond_any x y z a e (e ^ 2)) (cart2geodetic_loop1_body x y z a e (e ^ 2))
+              (0, 0, Complex.arg ⟨Real.sqrt (x * x + y * y), z⟩ + 1, Complex.arg ⟨Real.sqrt (x * x + y * y), z⟩)
+            1 - e ^ 2 * s.1 / (s.1 + s.2.1) ≠ 0) :
     let s := whileLoop (cart2geodetic_loop1_cond_any x y z a e (e ^ 2)) (cart2geodetic_loop1_body x y z a e (e ^ 2))
       (0, 0, Complex.arg ⟨Real.sqrt (x * x + y * y), z⟩ + 1, Complex.arg ⟨Real.sqrt (x * x + y * y), z⟩)
-    cart2geodetic x y z a e = (s.2.1, s.2.2.1 * (180 / Real.pi), Complex.arg ⟨x, y⟩ * (180 / Real.pi))
-    ∧ ¬ cart2geodetic_loop1_cond_any x y z a e (e ^ 2) s := by
-  intro s
-  refine ⟨?_, (conv_loop_exit _ _ _ hex).1⟩
-  have he2 : e ^ 2 ≠ 0 := pow_ne_zero 2 he
-  simp only [cart2geodetic, if_neg he2]
-  rfl
+    let g := cart2geodetic x y z a e
+    let p := geodetic2cart g.1 g.2.1 g.2.2 a e
+    g = (s.2.1, s.2.2.1 * (180 / Real.pi), Complex.arg ⟨x, y⟩ * (180 / Real.pi))
+    ∧ p.1 = x ∧ p.2.1 = y
+    ∧ |z - p.2.2| * Real.cos s.2.2.2 ≤ |s.1 * (1 - e ^ 2) + s.2.1| * |s.2.2.1 - s.2.2.2|
+    ∧ ¬ cart2geodetic_loop1_cond_any x y z a e (e ^ 2) s :=
+  conv_cart2geodetic_exit_inverse x y z a e he hxy hex hden
 
 /-! ## Position + line of sight -/
 
@@ -254,6 +297,11 @@ example : ∃ x y z B : ℝ, (x ≠ 0 ∨ y ≠ 0)
     (by norm_num [abs_lt]) (by norm_num)
   exact ⟨_, _, _, _, h.2.1, h.1.2.2, h.2.2⟩
 
+/-- hypotheses of `C07_geodetic_lon_recovery` / `C07_step_residual` (cos B > 0) are satisfiable -/
+example : ∃ h lat lon a e : ℝ, 0 < a ∧ 0 ≤ e ∧ e < 1 ∧ |lat| < 90 ∧ -(a * (1 - e ^ 2)) < h ∧ (-180 < lon ∧ lon ≤ 180) :=
+  ⟨-10000, -88, 180, 6378137, 0, by norm_num, by norm_num, by norm_num, by norm_num [abs_lt], by norm_num, by norm_num⟩
+example : ∃ B : ℝ, 0 < Real.cos B := ⟨0, by simp⟩
+
 /-- a loop that exits: count to three -/
 example : ∃ n : ℕ, ¬ (fun k : ℕ => k < 3) ((fun k => k + 1)^[n] 0) := ⟨3, by simp [Function.iterate_succ]⟩
 
@@ -265,5 +313,6 @@ assert_axioms C07_gcd_symm C07_gcd_self_zero C07_gcd_eq_zero_iff C07_gcd_lon_shi
   C07_gcd_deg_eq C07_gcd_triangle C07_tunnel_symm C07_tunnel_self_zero C07_tunnel_lon_shift C07_tunnel_le_diameter
   C07_tunnel_triangle C07_chord_arc C07_geocentric_roundtrip C07_geocentric_roundtrip_mod C07_cart_roundtrip
   C07_ellipsoid_table C07_surface_radius C07_geodetic_fixed_point C07_geodetic_is_fixed_point C07_spherical_shortcut
-  C07_spherical_fixed_point C07_composed_routes_agree C07_loop_exit C07_cart2geodetic_at_exit_partial
+  C07_spherical_fixed_point C07_composed_routes_agree C07_loop_exit C07_loop_entered C07_cart2geodetic_lon
+  C07_geodetic_lon_recovery C07_composite_roundtrip C07_step_residual C07_cart2geodetic_at_exit_partial
   C07_los_zenith C07_los_azimuth
